@@ -745,3 +745,46 @@ Proof.
   { destruct bias as [b|]; [|exact I]. cbn [option_map vshape v_array]. apply Z.eqb_eq in Hb. now rewrite Hb. }
   rewrite Er. cbn [option_map]. unfold materialize. rewrite Sr. eexists. reflexivity.
 Qed.
+
+(* ======================= pooling windows ======================= *)
+Lemma slice_pool2d_app (lead l : list Z) H W kh kw sh sw y x : length l = length lead ->
+  slice_pool2d (l ++ [y; x]) (lead ++ [H; W]) [kh; kw] [sh; sw]
+  = map (fun i => (znth (l ++ [y; x]) i, znth (l ++ [y; x]) i + 1)) (zrange (zlen lead))
+    ++ [(sh * y, sh * y + kh); (sw * x, sw * x + kw)].
+Proof.
+  intros E. unfold slice_pool2d. rewrite zlen_app. change (zlen [H; W]) with 2.
+  replace (zlen lead + 2 - 2) with (zlen lead) by lia.
+  rewrite !zat_app_neg by (cbn; lia). reflexivity.
+Qed.
+
+Lemma zrange_1 : zrange 1 = [0]. Proof. reflexivity. Qed.
+
+(* a batch axis selects exactly its own index *)
+Lemma slice_range_batch n v : 0 <= v < n -> slice_range n (v, v + 1) = [v].
+Proof.
+  intros B. unfold slice_range. cbn [fst snd]. rewrite !Z.min_l by lia.
+  replace (v + 1 - v) with 1 by lia. rewrite zrange_1. cbn [map]. now rewrite Z.add_0_r.
+Qed.
+
+(* a spatial axis selects s*y, .., min(s*y + k, n) - 1 *)
+Lemma slice_range_window n k s y : 0 <= s * y <= n -> 0 <= k ->
+  slice_range n (s * y, s * y + k) = map (Z.add (s * y)) (zrange (Z.min (s * y + k) n - s * y)).
+Proof. intros B Hk. unfold slice_range. cbn [fst snd]. rewrite (Z.min_l (s * y) n) by lia. reflexivity. Qed.
+
+Lemma window_complete_floor n k s y : 1 <= s -> 1 <= k <= n -> 0 <= y < pool_extent false n k s ->
+  s * y + k <= n /\ Z.min (s * y + k) n - s * y = k.
+Proof.
+  intros Hs Hk By. pose proof (pool_floor_count n k s Hs Hk) as A. cbv zeta in A. destruct A as [_ [A _]].
+  set (o := pool_extent false n k s) in *.
+  assert (s * y <= s * (o - 1)) by (apply Z.mul_le_mono_nonneg_l; lia).
+  assert (s * y + k <= n) by lia. split; [assumption|]. rewrite Z.min_l by lia. lia.
+Qed.
+
+Lemma window_nonempty_ceil n k s y : 1 <= s -> 1 <= k <= n -> (pool_extent true n k s - 1) * s < n ->
+  0 <= y < pool_extent true n k s -> s * y < n /\ 1 <= Z.min (s * y + k) n - s * y <= k.
+Proof.
+  intros Hs Hk D By. set (o := pool_extent true n k s) in *.
+  assert (s * y <= s * (o - 1)) by (apply Z.mul_le_mono_nonneg_l; lia).
+  assert (s * y < n) by lia. split; [assumption|].
+  destruct (Z.min_spec (s * y + k) n) as [[_ E]|[_ E]]; rewrite E; lia.
+Qed.
